@@ -66,3 +66,38 @@ SELECT a, b FROM r;
 SELECT b FROM r WHERE a = 1;
 SELECT b FROM r WHERE a = 2;
 SELECT b FROM r WHERE a = 5;
+
+-- [C09/C06 / D-truthy, E-truthy] integer truth values: SELECT keeps the row, UPDATE and DELETE do not; JOIN .. ON errors
+CREATE TABLE w (a INTEGER, b INTEGER);
+INSERT INTO w VALUES (1, 10);
+INSERT INTO w VALUES (0, 20);
+INSERT INTO w VALUES (NULL, 30);
+SELECT b FROM w WHERE a;
+--   observed: [10]
+UPDATE w SET b = b + 1 WHERE a;
+--   observed: 0 rows   (expected 1)
+DELETE FROM w WHERE a;
+--   observed: 0 rows   (expected 1)
+CREATE TABLE j1 (x INTEGER);
+CREATE TABLE j2 (y INTEGER);
+INSERT INTO j1 VALUES (1);
+INSERT INTO j2 VALUES (7);
+SELECT x, y FROM j1 JOIN j2 ON x;
+--   observed: ERROR "JOIN condition must evaluate to boolean, got: Integer(1)"
+SELECT x, y FROM j1, j2 WHERE x;
+--   observed: [1, 7]
+
+-- [C09 #12] UPDATE through the primary-key fast path with an INTEGER literal on a BIGINT key
+CREATE TABLE u (id BIGINT PRIMARY KEY, v INTEGER);
+INSERT INTO u VALUES (1, 10);
+UPDATE u SET v = 11 WHERE id = 1;
+--   observed: 0 rows
+SELECT v FROM u;
+--   observed: [10]   (expected [11])
+
+-- [C03] the row path gets NULL-only groups right (compare with the columnar results in sql_confirmed_defects.sql)
+CREATE TABLE g (k INTEGER, v INTEGER);
+INSERT INTO g VALUES (1, NULL);
+INSERT INTO g VALUES (1, NULL);
+SELECT k, SUM(v), AVG(v), COUNT(v), COUNT(*), MIN(v) FROM g GROUP BY k;
+--   observed: [1, NULL, NULL, 0, 2, NULL]   (correct)
